@@ -1,30 +1,26 @@
 import SockModel.Drive.Common
-import SockModel.Model.LocksExec
+import SockModel.Spec.C04
 /-! Driver for C04 / C05 / C08: validates scheduler traces of the real library (lock, poll and
-pipe events at the libc boundary plus API / handler markers) against the `Locks` transition system,
-and evaluates the properties directly on the trace. -/
+pipe events at the libc boundary plus API / handler markers).
+
+Every `ev T<k> ...` / `outcome ...` / `crash ...` line is parsed into ONE typed observation
+`Locks.Spec.Obs` (`Spec/C04.lean`).  Then
+* spec: `Locks.Spec.specStep` - the property predicate of `Spec/C04.lean` (the monitors `stepA` = C04,
+  `stepB` = C05, `stepC` = C08, switched by the mode), on the observations only; this file contains no
+  property clause of its own (one source of truth; `Locks.Spec.model_satisfies_spec` proves that the
+  predicate accepts every trace of the model);
+* correspondence: the event must be a transition (or a short sequence of transitions) of the `Locks`
+  LTS from the current model state (`applyAll`, proved sound: `applyAll_reach`), and the owner of stepMtx
+  according to the lock events alone must equal the model's after every event. -/
 namespace SockModel.Drive.C04
 open SockModel SockModel.Drive SockModel.Locks
+open SockModel.Locks.Spec (Obs Ev Kind Act Mode SpecSt specStep)
 
 structure VSt where
   m : St := {}
   depth : Nat := 0                  -- extra recursive acquisitions of stepMtx by its owner
-  stopping : List Nat := []         -- user threads between `begin stop` and their datagram
   drvStopping : Bool := false       -- the driver thread is inside a Stop() issued from a task
-  -- observation-only state for the direct property checks
-  stepOwner : Option Nat := none    -- who holds stepMtx according to the lock events alone
-  stepCount : Nat := 0
-  inHandler : Option String := none
-  closed : List String := []        -- sockets whose destructor returned on a non-driver thread
-  cancelled : List String := []     -- ToDos whose Cancel returned on a non-driver thread
-  bumped : List (Nat × Nat) := []   -- (user, driver step-begins since its wake-up datagram)
-  stopDone : Bool := false          -- some Stop() has returned
-  stepsSinceStop : Nat := 0
-  stopBegun : Bool := false
-  pendingStops : List Nat := []     -- threads whose Stop() stored the flag and no Run has returned since
-  runExited : Bool := false
-  inRun : Bool := false
-  names : List (Nat × String) := []
+  sp : SpecSt := {}                 -- the observer's book-keeping of `Spec/C04.lean` (observations only)
   tags : List String := []
 
 def tidOf (s : String) : Option Nat := if s.startsWith "T" then (s.drop 1).toString.toNat? else none
@@ -34,79 +30,45 @@ def fire (v : VSt) (ls : List L) (what : String) : Except String VSt :=
   | some m' => .ok { v with m := m' }
   | none => .error s!"event '{what}' is not a step of the Locks transition system from the current model state"
 
-/-- C04/C05/C08 on the observations alone; returns an error message or the updated state -/
-def spec (c04 c05 c08 : Bool) (v : VSt) (t : Nat) (w : List String) : Except String VSt := do
-  let mut v := v
-  match w with
-  | ["lock", "step"] | ["trylock", "step", "ok"] =>
-    match v.stepOwner with
-    | some o =>
-      if o ≠ t then
-        if c04 then throw s!"thread T{t} acquired stepMtx while T{o} holds it" else pure ()
-      v := { v with stepCount := v.stepCount + 1 }
-    | none => v := { v with stepOwner := some t, stepCount := 1 }
-    if t = 0 ∧ w == ["lock", "step"] then
-      -- the driver begins a step
-      v := { v with bumped := v.bumped.map (fun (u, n) => (u, n + 1)),
-                    stepsSinceStop := if v.stopDone ∧ v.inRun then v.stepsSinceStop + 1 else v.stepsSinceStop }
-      if c05 then
-        match v.bumped.find? (fun (_, n) => n > 1) with
-        | some (u, n) => throw s!"driver began {n} steps while T{u} waits for stepMtx after its wake-up datagram"
-        | none => pure ()
-      if c08 ∧ v.stepsSinceStop > 1 then
-        throw s!"Run began {v.stepsSinceStop} further steps after a Stop() had returned"
-    if t ≠ 0 then v := { v with bumped := v.bumped.filter (fun (u, _) => u ≠ t) }
-  | ["unlock", "step"] =>
-    if v.stepOwner == some t then
-      v := if v.stepCount ≤ 1 then { v with stepOwner := none, stepCount := 0 } else { v with stepCount := v.stepCount - 1 }
-  | ["sendto", "pipefrom"] =>
-    if t ≠ 0 ∧ !(v.stopping.contains t) then v := { v with bumped := v.bumped ++ [(t, 0)] }
-  | "mark" :: kind :: name :: rest =>
-    if kind == "handler" ∨ kind == "task" then
-      if rest == ["enter"] then
-        if c04 then
-          if t ≠ 0 then throw s!"{kind} of {name} ran on thread T{t}, not on the thread executing Step/Run"
-          if v.stepOwner ≠ some 0 then throw s!"{kind} of {name} invoked while the driver thread does not hold stepMtx"
-          match v.inHandler with
-          | some other => throw s!"{kind} of {name} started while {other} is still running"
-          | none => pure ()
-          if kind == "handler" ∧ v.closed.contains name then
-            throw s!"handler of socket {name} started after its destructor had returned on another thread"
-          if kind == "task" ∧ v.cancelled.contains name then
-            throw s!"task of {name} started after Cancel() had returned on another thread"
-        v := { v with inHandler := some s!"{kind} {name}", tags := kind :: v.tags }
-      else if rest == ["exit"] then v := { v with inHandler := none }
-    else if kind == "end" then
-      -- `mark end <user> <action>`
-      match rest with
-      | ["close"] =>
-        if t ≠ 0 then
-          if c04 ∧ v.inHandler == some s!"handler {name}" then
-            throw s!"destructor of socket {name} returned on another thread while its handler is still running"
-          v := { v with closed := name :: v.closed, tags := "close" :: v.tags }
-      | ["cancel"] =>
-        if t ≠ 0 then
-          if c04 ∧ v.inHandler == some s!"task {name}" then
-            throw s!"Cancel() of {name} returned on another thread while its task is still running"
-          v := { v with cancelled := name :: v.cancelled, tags := "cancel" :: v.tags }
-      | ["shift"] => v := { v with cancelled := v.cancelled.filter (· ≠ name), tags := "shift" :: v.tags }
-      | ["todo"] => v := { v with cancelled := v.cancelled.filter (· ≠ name) }
-      | ["stop"] | ["stop-in-task"] | ["stop-signal"] =>
-        -- only a Stop that no Run has consumed yet obliges the Run in progress
-        if v.pendingStops.contains t then v := { v with stopDone := true, stepsSinceStop := 0, tags := "stop" :: v.tags }
-        else v := { v with tags := "stop" :: v.tags }
-      | _ => pure ()
-    else if kind == "begin" then
-      match rest with
-      | ["stop"] | ["stop-in-task"] | ["stop-signal"] => v := { v with stopBegun := true, pendingStops := t :: v.pendingStops }
-      | _ => pure ()
-  | ["mark", "run-enter"] => v := { v with inRun := true, stepsSinceStop := 0 }
-  | ["mark", "run-exit"] =>
-    if c08 ∧ !v.stopBegun then throw "Run() returned although no Stop() was ever called"
-    v := { v with runExited := true, stopDone := false, stopBegun := false, stepsSinceStop := 0, pendingStops := [], inRun := false,
-                  tags := "run-exit" :: v.tags }
-  | _ => pure ()
-  return v
+def parseAct : String → Act
+  | "close" => .close
+  | "cancel" => .cancel
+  | "shift" => .shift
+  | "todo" => .todo
+  | "udp" => .attach
+  | "tcp" => .attach
+  | _ => .other
+
+/-- the words of one `ev T<k> ...` line as a typed event of `Spec/C04.lean` -/
+def toEv : List String → Ev
+  | ["lock", "step"] => .lockStep
+  | ["trylock", "step", "ok"] => .tryStepOk
+  | ["unlock", "step"] => .unlockStep
+  | ["sendto", "pipefrom"] => .bump
+  | ["mark", "run-enter"] => .runEnter
+  | ["mark", "run-exit"] => .runExit
+  | ["mark", "handler", name, "enter"] => .enter .handler name
+  | ["mark", "task", name, "enter"] => .enter .task name
+  | ["mark", "handler", _, "exit"] => .exit
+  | ["mark", "task", _, "exit"] => .exit
+  | ["mark", "end", _, "stop"] => .endStop
+  | ["mark", "end", _, "stop-in-task"] => .endStop
+  | ["mark", "end", _, "stop-signal"] => .endStop
+  | ["mark", "end", name, a] => .endAct name (parseAct a)
+  | ["mark", "begin", _, "stop"] => .beginStop true
+  | ["mark", "begin", _, "stop-in-task"] => .beginStop false
+  | ["mark", "begin", _, "stop-signal"] => .beginStop false
+  | _ => .other
+
+/-- branch tags of an accepted event (evidence only) -/
+def tagsOf (t : Nat) : Ev → List String
+  | .enter k _ => [k.str]
+  | .endAct _ .close => if t ≠ 0 then ["close"] else []
+  | .endAct _ .cancel => if t ≠ 0 then ["cancel"] else []
+  | .endAct _ .shift => ["shift"]
+  | .endStop => ["stop"]
+  | .runExit => ["run-exit"]
+  | _ => []
 
 /-- map one scheduler event to transitions of the model -/
 def model (v : VSt) (t : Nat) (w : List String) (what : String) : Except String VSt := do
@@ -121,7 +83,7 @@ def model (v : VSt) (t : Nat) (w : List String) (what : String) : Except String 
   | ["mark", "begin", _, "stop"] =>
     -- the flag store of Stop() happens in the same uninterrupted segment as this marker
     if isDrv then pure { v with drvStopping := true }
-    else (do let v' ← fire v [.uStopSet t] what; pure { v' with stopping := t :: v'.stopping })
+    else fire v [.uStopSet t] what
   | ["mark", "begin", _, "stop-in-task"] => pure { v with drvStopping := true }
   | ["mark", "begin", _, "stop-signal"] => pure { v with drvStopping := true }
   | ["lock", "step"] =>
@@ -159,50 +121,56 @@ def model (v : VSt) (t : Nat) (w : List String) (what : String) : Except String 
     if isDrv then
       if v.drvStopping then (do let v' ← fire v [.dStop] what; pure { v' with drvStopping := false })
       else throw "driver thread sent a wake-up datagram outside Stop()"
-    else if v.m.u t = .stopBump then (do let v' ← fire v [.uStopBump t] what; pure { v' with stopping := v'.stopping.filter (· ≠ t) })
+    else if v.m.u t = .stopBump then fire v [.uStopBump t] what
     else fire v [.uBump t] what
   | _ => pure v
 
-partial def go (c04 c05 c08 : Bool) (v : VSt) : List String → Verdict
+/-- `spec`: `specStep` of `Spec/C04.lean` on the typed observation (no property clause lives here);
+`corr`: the same event must be a step of the Locks LTS with the same owner of stepMtx afterwards -/
+def go (md : Mode) (v : VSt) : List String → Verdict
   | [] => { tags := v.tags }
   | l :: rest =>
     match obs? l with
-    | none => go c04 c05 c08 v rest
+    | none => go md v rest
     | some ("ev" :: tid :: w) =>
       match tidOf tid with
       | none => Verdict.corr s!"bad event {l}" v.tags
       | some t =>
         let what := " ".intercalate (tid :: w)
-        match spec c04 c05 c08 v t w with
+        let e := toEv w
+        match specStep md v.sp (.ev t e) with
         | .error msg => Verdict.spec msg v.tags
-        | .ok v1 =>
+        | .ok sp =>
+          let v1 := { v with sp := sp, tags := tagsOf t e ++ v.tags }
           match model v1 t w what with
           | .error msg => Verdict.corr msg v1.tags
           | .ok v2 =>
             -- the shim's view of who owns stepMtx must equal the model's after every event
             let modelOwner : Option Nat := match v2.m.step with | .none => none | .drv => some 0 | .usr u => some u
-            if modelOwner ≠ v2.stepOwner then
-              Verdict.corr s!"after '{what}': stepMtx owner differs (model {repr modelOwner}, observed {repr v2.stepOwner})" v2.tags
+            if modelOwner ≠ v2.sp.a.owner then
+              Verdict.corr s!"after '{what}': stepMtx owner differs (model {repr modelOwner}, observed {repr v2.sp.a.owner})" v2.tags
             else
               let tag := match w with
                 | ["trylock", "step", "fail"] => ["contended"]
                 | ["trylock", "step", "ok"] => ["uncontended"]
                 | "poll" :: _ => if t = 0 then ["dpoll"] else []
                 | _ => []
-              go c04 c05 c08 { v2 with tags := tag ++ v2.tags } rest
-    | some ("outcome" :: "done" :: _) =>
-      if c08 ∧ v.stopBegun ∧ !v.runExited ∧ v.tags.contains "run-mode" then Verdict.spec "Run() did not return after Stop()" v.tags
-      else go c04 c05 c08 v rest
-    | some ("outcome" :: "deadlock" :: x) =>
-      Verdict.spec ("deadlock / lost wake-up: no thread can make progress: " ++ " ".intercalate x) v.tags
-    | some ("outcome" :: "stuck" :: x) => Verdict.spec ("a thread is stuck outside the scheduler: " ++ " ".intercalate x) v.tags
-    | some ("crash" :: x) => Verdict.spec ("crash: " ++ " ".intercalate x) v.tags
-    | some _ => go c04 c05 c08 v rest
+              go md { v2 with tags := tag ++ v2.tags } rest
+    | some ("outcome" :: "done" :: _) => outcome md v .done rest
+    | some ("outcome" :: "deadlock" :: x) => outcome md v (.deadlock (" ".intercalate x)) rest
+    | some ("outcome" :: "stuck" :: x) => outcome md v (.stuck (" ".intercalate x)) rest
+    | some ("crash" :: x) => outcome md v (.crash (" ".intercalate x)) rest
+    | some _ => go md v rest
+where
+  outcome (md : Mode) (v : VSt) (o : Obs) (rest : List String) : Verdict :=
+    match specStep md v.sp o with
+    | .error msg => Verdict.spec msg v.tags
+    | .ok sp => go md { v with sp := sp } rest
 
 def dedupTags (v : Verdict) : Verdict := { v with tags := dedup v.tags }
 
-def runCaseC04 (body : List String) : Verdict := dedupTags (go true false false {} body)
-def runCaseC05 (body : List String) : Verdict := dedupTags (go false true false {} body)
-def runCaseC08 (body : List String) : Verdict := dedupTags (go false false true {} body)
+def runCaseC04 (body : List String) : Verdict := dedupTags (go ⟨true, false, false⟩ {} body)
+def runCaseC05 (body : List String) : Verdict := dedupTags (go ⟨false, true, false⟩ {} body)
+def runCaseC08 (body : List String) : Verdict := dedupTags (go ⟨false, false, true⟩ {} body)
 
 end SockModel.Drive.C04
